@@ -80,7 +80,9 @@ Check(r, idx) ==
         \* a plain cache (no bound, no expiry, no handlers: sc.bare = 1): no event tells that an InvalidateAll removed the key, but with the key
         \* preloaded and no other kind of writer it was present when the call started; a load that had started before the call and is
         \* installed after the call returned must not leave its value behind
-        onlyAll == \A w \in wcalls : w.op = "invalidateAll"
+        \* (exactly ONE such call: after a first InvalidateAll the key is absent, a load started from that miss is not the business of a second
+        \* one - it removes nothing and cancels nothing; 4 of 20 000 scenarios of the thorough tier raised this false alarm, see DESIGN.md 12.4)
+        onlyAll == (\A w \in wcalls : w.op = "invalidateAll") /\ Cardinality(wcalls) = 1
         staleAll == {x \in finRuns(1) : /\ r.sc.bare = 1 /\ r.sc.preload = 1 /\ onlyAll /\ r.sc.inloader = <<>>
                                          /\ \E w \in wcalls : /\ w.seq > enterSeq(x)
                                                                /\ \E y \in wrets : y.g = w.g /\ y.seq < installSeq(x)
